@@ -7,7 +7,7 @@ from mir import canon
 PANIC_CALL = re.compile(
     r'(^core::panicking::|^std::rt::panic_fmt|^std::rt::begin_panic|::unwrap$|::expect$|::unwrap_err$|::expect_err$|'
     r'::unwrap_unchecked$|Option::<.*>::unwrap$|Result::<.*>::unwrap$|Result::<.*>::expect$|Option::<.*>::expect$|'
-    r'ops::Index<.*>>::index$|ops::IndexMut<.*>>::index_mut$|::copy_from_slice$|::split_at$|::split_at_mut$|'
+    r'ops::Index<.*>>::index$|ops::IndexMut<.*>>::index_mut$|ops::Index(Mut)?<.*> for .*>::index(_mut)?$|::copy_from_slice$|::split_at$|::split_at_mut$|'
     r'RefCell<.*>::borrow(_mut)?$|::swap_remove$|Vec::<.*>::remove$|Vec::<.*>::insert$|::from_str_radix$|'
     r'^core::slice::index::|^core::str::slice_error_fail|^core::option::(unwrap_failed|expect_failed)|^core::result::unwrap_failed|'
     r'::step_by$|::chunks$|::chunks_exact$|::windows$|^std::process::exit$|::assert_failed|^core::panicking::assert_failed)')
